@@ -28,7 +28,6 @@ ASSUMPTIONS = [
 UNPROVED = [
     "b2i_i2b / i2b_b2i for times that are not 5-decimal exact (only 'up to round5' is claimed there; proved for "
     "5-decimal-exact times)",
-    "adjust_events_spec (modelled and checked by correspondence, no theorem)",
     "merge_misaligned_raises is proved for the alignment test only (IndexError on empty input is by computation)",
 ]
 EXHAUSTIVE = {"thorough": True}
@@ -172,7 +171,8 @@ def suite_adjust_events(rng, tier, shard, nshards):
         yield Case("util.adjust_events", [ev, list(labs) if wl else None, a, b, "__"],
                    lambda ev=ev, labs=labs, wl=wl, fa=fa, fb=fb: mir_eval.util.adjust_events(
                        np.array([F(x) for x in ev]), list(labs) if wl else None, fa, fb, "__"),
-                   tol=0.0, tag="n=%d" % k, info={"events": [F(x) for x in ev]}, nontrivial=k > 0)
+                   tol=0.0, tag="n=%d" % k, info={"events": [F(x) for x in ev], "labels": list(labs),
+                                                   "t_min": fa, "t_max": fb}, nontrivial=k > 0)
 
 
 def aligned_pair(rng, nmax=5, contiguous=True):
@@ -537,6 +537,80 @@ def gen_adjust(rng, tier, shard, nshards, boost):
                         yield _adjust_input(ivs, [LABS[j % 3] for j in range(len(ivs))], a, b)
 
 
+# ---- adjust_events: the documented statement (Mir.C13.eventsSpec) on the real function
+TMIN_L, TMAX_L = "__T_MIN", "__T_MAX"
+
+
+def events_spec(ev, labs, a, b):
+    """events inside [a, b] in their order; a in front / b at the end (synthetic labels) when not already there"""
+    out = [(t, l) for t, l in zip(ev, labs) if (a is None or t >= a) and (b is None or t <= b)]
+    if a is not None and not any(t == a for t, _ in out):
+        out.insert(0, (a, TMIN_L))
+    if b is not None and not any(t == b for t, _ in out):
+        out.append((b, TMAX_L))
+    return out
+
+
+def check_adjust_events(inp):
+    ev, labs, a, b = list(inp["events"]), list(inp["labels"]), inp["t_min"], inp["t_max"]
+    try:
+        out_t, out_l = mir_eval.util.adjust_events(np.array(ev, dtype=float), list(labs), a, b)
+    except Exception as e:  # noqa: BLE001
+        return "adjust_events raised %r on time-ordered events and a proper range" % (e,)
+    out_t = np.asarray(out_t).tolist()
+    if len(out_t) != len(out_l):
+        return "%d event times but %d labels" % (len(out_t), len(out_l))
+    got = list(zip(out_t, out_l))
+    want = events_spec(ev, labs, a, b)
+    if got != want:
+        return "adjust_events returned %r, the documented result is %r" % (got, want)
+    try:
+        o2, l2 = mir_eval.util.adjust_events(np.array(ev, dtype=float), None, a, b)
+    except Exception as e:  # noqa: BLE001
+        return "adjust_events(labels=None) raised %r" % (e,)
+    if l2 is not None or np.asarray(o2).tolist() != out_t:
+        return "labels=None gives different event times or invents labels"
+    return None
+
+
+def _events_input(ev, labs, a, b):
+    return {"events": [F(t) for t in ev], "labels": list(labs),
+            "t_min": None if a is None else F(a), "t_max": None if b is None else F(b)}
+
+
+def gen_adjust_events(rng, tier, shard, nshards, boost):
+    n = (150 if tier == "quick" else 1500) * boost
+    k = 0
+    while k < n:
+        m = rng.randint(1, 6)
+        ev = sorted(Fr(rng.randint(0, 256), 32) for _ in range(m))
+        if m > 1 and rng.random() < 0.3:
+            j = rng.randrange(1, m)
+            ev[j] = ev[j - 1]                                     # simultaneous events
+        labs = [rng.choice(LABS) for _ in ev]
+        cand = [None] + ev + [(p + q) / 2 for p, q in zip(ev[:-1], ev[1:])] + \
+            [Fr(rng.randint(0, 256), 32), ev[0] - 1, ev[-1] + 1]
+        a, b = rng.choice(cand), rng.choice(cand)
+        if a is not None and b is not None and a > b:
+            continue
+        k += 1
+        yield _events_input(ev, labs, a, b)
+    # exhaustive small scope: <= 3 time-ordered events (ties allowed) on 4 points x all (t_min <= t_max) incl. None
+    pts = [Fr(j) for j in range(1, 5)]
+    lat = [None] + [Fr(j, 2) for j in range(0, 11)]
+    idx = 0
+    import itertools
+    for m in (1, 2, 3):
+        for ev in itertools.combinations_with_replacement(pts, m):
+            for a in lat:
+                for b in lat:
+                    if a is not None and b is not None and a > b:
+                        continue
+                    idx += 1
+                    if idx % nshards == shard:
+                        yield _events_input(list(ev), [LABS[j] for j in range(m)], a, b)
+
+
 def check_merge(inp):
     x = [tuple(r) for r in inp["x"]]
     y = [tuple(r) for r in inp["y"]]
@@ -714,6 +788,7 @@ CHECKERS = {
     "util.adjust_intervals": check_adjust_rest,
     "util.adjust_intervals:posdur": check_adjust_posdur,
     "util.adjust_intervals:labelAt": check_adjust_label,
+    "util.adjust_events": check_adjust_events,
     "util.merge_labeled_intervals": check_merge,
     "util.interpolate_intervals": check_interpolate,
     "util.intervals_to_samples": check_samples,
@@ -724,6 +799,7 @@ ORACLES = {
     "util.adjust_intervals": gen_adjust,
     "util.adjust_intervals:posdur": gen_adjust,
     "util.adjust_intervals:labelAt": gen_adjust,
+    "util.adjust_events": gen_adjust_events,
     "util.merge_labeled_intervals": gen_merge,
     "util.interpolate_intervals": gen_interpolate,
     "util.intervals_to_samples": gen_samples,
@@ -742,6 +818,10 @@ def classify(suite, d):
         ivs = [tuple(r) for r in i["intervals"]]
         if ivs and _ordered(ivs) and _proper(ivs, i["t_min"], i["t_max"]):
             return "util.adjust_intervals", i
+    if suite == "adjust_events":
+        ev, a, b = i["events"], i.get("t_min"), i.get("t_max")
+        if ev and "labels" in i and not (a is not None and b is not None and a > b):
+            return "util.adjust_events", {"events": ev, "labels": i["labels"], "t_min": a, "t_max": b}
     if suite == "merge_labeled_intervals":
         x, y = [tuple(r) for r in i["x"]], [tuple(r) for r in i["y"]]
         contig = lambda z: all(p[1] == q[0] for p, q in zip(z[:-1], z[1:]))  # noqa: E731
